@@ -45,6 +45,15 @@ CHECKS["C03"] = ("other",
     "binary operators). Not claimed: the recomputed diff lists of negated list comparisons.",
     TB % "c03", "must-flow + decision tables via abstract interpretation of MIR (no execution)", "DESIGN.md §5 C03")
 
+CHECKS["C01"] = ("other",
+    "NOT the property's behavioural core (verdict == independent interpreter over programs x documents; that needs run-time "
+    "values and is declined). Decided are the finite control tables the documented semantics rests on: the exists/empty/is_* "
+    "tables over QueryResult x 12 value kinds (unresolved counts as empty / not exists; `empty` errors exactly on kinds without "
+    "emptiness), every unresolved / not-comparable element of a binary comparison contributes exactly FAIL and none is dropped, "
+    "empty selections make the clause SKIP, and the all/some aggregation of per-value statuses. Breaking any of these breaks "
+    "the behaviour; holding them does not establish it.",
+    TB % "c01", "decision tables + monitors via abstract interpretation of MIR (no execution)", "DESIGN.md §5 C01")
+
 NOT_APPLICABLE = {
 }
 
